@@ -1,7 +1,7 @@
 (** C17 — partitions round-trip key by key and merge as an overlay of their parents.
     Statements only (model Storage/Partition.v, proofs Storage/PartitionProofs.v). *)
 From Coq Require Import List ZArith String Bool.
-From Memento Require Import Storage.Cache Storage.Partition Storage.PartitionProofs Gen.SourceFacts Gen.FactsOK.
+From Memento Require Import Storage.Cache Storage.Partition Storage.PartitionProofs Gen.SourceFacts Gen.FactsC17.
 Import ListNotations.
 
 (** a partition reads back with exactly its key set and, per key, the value returned *)
